@@ -250,6 +250,18 @@ let () = register "detect" (fun args ->
   and uc = int_of_z (class_count only_u Z0 h) and nuc = int_of_z (class_count is_nuc_letter Z0 h) in
   Printf.sprintf "biotype=%s dna=%s prot=%s exact=%s total=%d po=%d u=%d nuc=%d" bt (hex_of_n (bits_of_f64 sd)) (hex_of_n (bits_of_f64 sp)) sgn tot po uc nuc)
 
+let () = register "detecth" (fun args ->
+  let tbl = Array.make 128 0 in
+  List.iter (fun a -> match String.split_on_char ':' a with
+      | [c; v] -> let c = int_of_string c in if c >= 0 && c < 128 then tbl.(c) <- int_of_string v
+      | _ -> failwith "bad count") args;
+  let h = List.map z_of_int (Array.to_list tbl) in
+  let (sd, sp) = detect_sums h in
+  let bt = match detect_alphabet h with Some b -> string_of_int (int_of_z b) | None -> "undecided" in
+  let em = exact_margin h in
+  let sgn = match em with Z0 -> "zero" | Zpos _ -> "pos" | Zneg _ -> "neg" in
+  Printf.sprintf "biotype=%s dna=%s prot=%s exact=%s" bt (hex_of_n (bits_of_f64 sd)) (hex_of_n (bits_of_f64 sp)) sgn)
+
 (* ---- C17: comparison score ------------------------------------------------------------------------- *)
 let parse_named s = List.map (fun a ->
     match String.split_on_char ':' a with
